@@ -6,6 +6,10 @@ use std::collections::BTreeMap;
 
 pub type OpKey = (u32, Vec<u32>, Vec<u32>);
 
+/// prefix of the panic message by which the engine recognises a callback called with arguments
+/// the library had no right to pass
+pub const CALLBACK_VIOLATION: &str = "callback-violation:";
+
 #[derive(Clone, Debug, Default)]
 pub struct TableFunctor {
     /// object map: node label -> list of labels
@@ -25,6 +29,15 @@ impl TableFunctor {
         self.ops
             .get(&(l, a.to_vec(), b.to_vec()))
             .unwrap_or_else(|| panic!("harness: functor table has no image for {l} {a:?}->{b:?}"))
+            .clone()
+    }
+    /// lookup on behalf of the *library* (inside a functor/optic callback): the library may only
+    /// ask for the image of an operation together with the source and target types it has in the
+    /// diagram; anything else is reported as a violation (`callback-arguments`), not as a harness error
+    pub fn operation_cb(&self, l: u32, a: &[u32], b: &[u32]) -> Diagram {
+        self.ops
+            .get(&(l, a.to_vec(), b.to_vec()))
+            .unwrap_or_else(|| panic!("{CALLBACK_VIOLATION} the library asked the functor for the image of operation {l} : {a:?} -> {b:?}, which is not an operation (with these types) of the diagram it was applied to"))
             .clone()
     }
     pub fn pretty(&self) -> String {
